@@ -726,7 +726,11 @@ impl Query {
 }
 
 pub fn run_guarded<F: FnOnce() -> Result<String, String>>(f: F) -> Outcome {
-  match catch_unwind(AssertUnwindSafe(f)) {
+  let result = {
+    let _scope = crate::sched::lib_scope();
+    catch_unwind(AssertUnwindSafe(f))
+  };
+  match result {
     Ok(Ok(s)) => Outcome::Ok(s),
     Ok(Err(e)) => Outcome::Refused(format!("err: {}", e)),
     Err(p) => {
